@@ -109,7 +109,8 @@ XImpTrack(track, ti, ib, r, v) ==
           LET held == {o \in acc.open : o[1] = e.m[1] % 16 /\ o[2] = e.m[2]}
           IN IF held = {} THEN acc
              ELSE LET o == CHOOSE o \in held : TRUE
-                  IN [out |-> [acc.out EXCEPT ![o[3]] = [@ EXCEPT !.dur = (e.t - @.t) \div Ticks32(r) + (IF v.durplus THEN 1 ELSE 0)]],
+                      was == acc.out[o[3]]
+                  IN [out |-> [acc.out EXCEPT ![o[3]] = [was EXCEPT !.dur = (e.t - was.t) \div Ticks32(r) + (IF v.durplus THEN 1 ELSE 0)]],
                       open |-> acc.open \ held]
         ELSE IF IsChanMsg(e.m) THEN [out |-> Append(acc.out, mk(e)), open |-> acc.open]
         ELSE acc
